@@ -208,7 +208,87 @@ def curvefitting_history(ctx, rng, n):
                 break
 
 
-CLASSES = {'Angle': angle_history, 'Epoch': epoch_history, 'Interpolation': interpolation_history,
+# ------------------------------------------------------------------ Minor / Earth
+def minor_history(ctx, rng, n):
+    """One Minor object re-pointed to other orbits with set(), handing over new Angle objects or the SAME Angle /
+    Epoch objects refilled in place (the way a catalogue loop is written); after every step its positions are
+    compared with those of a fresh Minor built from fresh objects holding the same values."""
+    from pymeeus.Minor import Minor
+    from pymeeus.Angle import Angle
+    from pymeeus.Epoch import Epoch
+
+    def elems():
+        return [rng.uniform(0.3, 6.0), rng.choice([rng.uniform(0.0, 0.9), 0.05, 0.5]), rng.uniform(0.0, 170.0),
+                rng.uniform(0.0, 359.0), rng.uniform(0.0, 359.0), 2451545.0 + rng.uniform(-3000.0, 3000.0)]
+    for _ in range(max(1, n // 6)):
+        el = elems()
+        i_, om_, w_, t_ = Angle(el[2]), Angle(el[3]), Angle(el[4]), Epoch(el[5])
+        body = Minor(el[0], el[1], i_, om_, w_, t_)
+        steps = [['init'] + el]
+        when = 2451545.0 + rng.uniform(-2000.0, 2000.0)
+        for _k in range(rng.randint(2, 4)):
+            op = rng.choice(['view', 'set_fresh', 'set_inplace', 'set_inplace'])
+            if op == 'view':
+                _try(lambda: body.geocentric_position(Epoch(when)))
+                steps.append(['view'])
+            else:
+                el = elems()
+                if op == 'set_fresh':
+                    i_, om_, w_, t_ = Angle(el[2]), Angle(el[3]), Angle(el[4]), Epoch(el[5])
+                else:
+                    i_.set(el[2]); om_.set(el[3]); w_.set(el[4]); t_.set(el[5])
+                body.set(el[0], el[1], i_, om_, w_, t_)
+                steps.append([op] + el)
+            fresh = Minor(el[0], el[1], Angle(el[2]), Angle(el[3]), Angle(el[4]), Epoch(el[5]))
+
+            def views(o):
+                return {'geocentric_position': lambda: o.geocentric_position(Epoch(when)),
+                        'heliocentric_ecliptical_position': lambda: o.heliocentric_ecliptical_position(Epoch(when))}
+            vb, vf = views(body), views(fresh)
+            bad = [k for k in sorted(vb) if not _same(_try(vb[k]), _try(vf[k]))]
+            ctx.predicate('object_history_consistent', not bad, ['Minor', when, list(steps)],
+                          {'views_differing_from_a_fresh_object': bad}, 'history/Minor')
+            if bad:
+                break
+
+
+def earth_history(ctx, rng, n):
+    """One Earth object re-pointed to other ellipsoids with set(); every view against a fresh Earth."""
+    from pymeeus.Earth import Earth, Ellipsoid
+
+    def ell():
+        return rng.choice([[6378140.0, 1.0 / 298.257, 7.292114992e-5], [6378137.0, 1.0 / 298.257223563, 7292115e-11],
+                           [6378137.0, rng.choice([0.0, 0.001, 0.005, 0.01]), 7292115e-11],
+                           [rng.uniform(1e6, 7e6), rng.uniform(0.0, 0.01), rng.uniform(1e-5, 1e-4)]])
+    for _ in range(max(1, n // 4)):
+        e0 = ell()
+        earth = Earth(Ellipsoid(*e0))
+        steps = [['init'] + e0]
+        cur = e0
+        for _k in range(rng.randint(2, 4)):
+            lat, h = rng.uniform(-89.0, 89.0), rng.choice([0.0, 1706.0, -100.0, 9000.0])
+            if rng.random() < 0.4:
+                _try(lambda: earth.rm(lat)); _try(lambda: earth.rho_sinphi(lat, h))
+                steps.append(['view'])
+            else:
+                cur = ell()
+                earth.set(Ellipsoid(*cur))
+                steps.append(['set'] + cur)
+            fresh = Earth(Ellipsoid(*cur))
+
+            def views(o):
+                return {'rho_sinphi': lambda: o.rho_sinphi(lat, h), 'rho_cosphi': lambda: o.rho_cosphi(lat, h),
+                        'rp': lambda: o.rp(lat), 'rm': lambda: o.rm(lat), 'linear_velocity': lambda: o.linear_velocity(lat),
+                        'distance': lambda: o.distance(10.0, lat, 55.5, -lat / 2.0)}
+            ve, vf = views(earth), views(fresh)
+            bad = [k for k in sorted(ve) if not _same(_try(ve[k]), _try(vf[k]))]
+            ctx.predicate('object_history_consistent', not bad, ['Earth', [lat, h], list(steps)],
+                          {'views_differing_from_a_fresh_object': bad}, 'history/Earth')
+            if bad:
+                break
+
+
+CLASSES = {'Minor': minor_history, 'Earth': earth_history, 'Angle': angle_history, 'Epoch': epoch_history, 'Interpolation': interpolation_history,
            'CurveFitting': curvefitting_history}
 
 
